@@ -20,6 +20,8 @@ def run(chk):
     mons = [("close", T.mon_close)]
     T.campaign(chk, 600 if thorough else 150, "close", mons)
     T.campaign(chk, 300 if thorough else 60, "mixed", mons)
+    # every short history, systematically (depth 4 in the quick tier: 9520 histories; depth 5 in the thorough tier)
+    T.exhaustive(chk, 5 if thorough else 4, mons)
     extra(chk, thorough)
     extra_reset(chk)
     chk.assumptions = ["events are injected at quiescent points of the asyncio loop only (cancellation / I/O landing between two "
